@@ -32,7 +32,9 @@ pub fn streams(rng: &mut Xoshiro256PlusPlus, n: usize) -> Vec<(&'static str, Vec
 pub fn record_quantile(path: &str, seed: u64, n: usize, rep: &mut Report) {
     let mut rng = Xoshiro256PlusPlus::seed_from_u64(seed);
     let mut out = std::io::BufWriter::new(std::fs::File::create(path).unwrap());
-    let p32s = [0u32, 1, 4, 8, 16, 24, 31, 32];
+    // p = k/32 (exact desired positions: the position skeleton is validated by TLC) and, encoded
+    // as 1000 + k, p = k/10 (not representable: only bookkeeping, invariants and the serde twin)
+    let p32s = [0u32, 1, 4, 8, 16, 24, 31, 32, 1001, 1003, 1007, 1009];
     for bad in [-0.1, 1.0000000000000002, f64::NAN, f64::INFINITY, f64::NEG_INFINITY, 2.0, -1e-300] {
         let panicked = std::panic::catch_unwind(|| Quantile::new(bad)).is_err();
         writeln!(out, "{}", json!({"op": "new_invalid", "p": format!("{bad:e}"), "panicked": panicked})).unwrap();
@@ -45,24 +47,42 @@ pub fn record_quantile(path: &str, seed: u64, n: usize, rep: &mut Report) {
             if xs.len() > 100 && (hash_str(name) + p32 as u64 + seed) % 3 != 0 {
                 continue; // a third of the (stream, p) combinations per seed for long streams
             }
-            let p = p32 as f64 / 32.0;
+            let dyadic = p32 < 1000;
+            let p = if dyadic { p32 as f64 / 32.0 } else { (p32 - 1000) as f64 / 10.0 };
             let mut qt = Quantile::new(p);
-            writeln!(out, "{}", json!({"op": "new", "p32": p32})).unwrap();
+            // C18 twin: fed the same stream, but serialised and restored (serde_json, lossless for
+            // finite f64) before every observation; its serialised state must stay identical
+            let mut twin = Quantile::new(p);
+            writeln!(out, "{}", json!({"op": "new", "p32": if dyadic { p32 } else { 0 }, "dyadic": dyadic})).unwrap();
             rep.behaviours += 1;
             rep.nontrivial.insert(hash_str(&format!("{name}{p32}{seed}")));
             let mut lo = f64::INFINITY;
             let mut hi = f64::NEG_INFINITY;
             for (i, &x) in xs.iter().enumerate() {
                 let pre = markers(&qt);
-                qt.add(x);
+                // a panic of the code under test is logged as an event no specification action matches
+                let step = std::panic::catch_unwind(std::panic::AssertUnwindSafe(|| {
+                    qt.add(x);
+                    let j = serde_json::to_string(&twin).unwrap();
+                    twin = serde_json::from_str(&j).unwrap();
+                    twin.add(x);
+                    (qt.quantile(), twin.quantile().to_bits() == qt.quantile().to_bits())
+                }));
+                let (est, twin_est_equal) = match step {
+                    Ok(r) => r,
+                    Err(_) => {
+                        writeln!(out, "{}", json!({"op": "panic", "stream": name, "p32": p32, "observation": i + 1})).unwrap();
+                        break;
+                    }
+                };
                 lo = lo.min(x);
                 hi = hi.max(x);
-                let est = qt.quantile();
                 let inrange = est >= lo && est <= hi;
                 let cnt = i + 1;
                 rep.evaluations += 1;
+                let twin_equal = serde_json::to_string(&twin).unwrap() == serde_json::to_string(&qt).unwrap() && twin_est_equal;
                 if cnt <= 5 {
-                    writeln!(out, "{}", json!({"op": "small", "cnt": cnt, "len": qt.len(), "inrange": inrange})).unwrap();
+                    writeln!(out, "{}", json!({"op": "small", "cnt": cnt, "len": qt.len(), "inrange": inrange, "twin_equal": twin_equal})).unwrap();
                     continue;
                 }
                 let post = match markers(&qt) {
@@ -78,12 +98,13 @@ pub fn record_quantile(path: &str, seed: u64, n: usize, rep: &mut Report) {
                 writeln!(
                     out,
                     "{}",
-                    json!({"op": "add", "rank": rank, "pos": post.n, "cnt": cnt, "len": qt.len(),
-                           "minok": post.q[0] == lo, "maxok": post.q[4] == hi, "sorted": sorted, "inrange": inrange})
+                    json!({"op": if dyadic { "add" } else { "add_nd" }, "rank": rank, "pos": post.n, "cnt": cnt, "len": qt.len(),
+                           "minok": post.q[0] == lo, "maxok": post.q[4] == hi, "sorted": sorted, "inrange": inrange, "twin_equal": twin_equal})
                 )
                 .unwrap();
             }
-            rep.sample(json!({"stream": name, "p": p, "length": xs.len(), "final_estimate": qt.quantile()}));
+            let fin = std::panic::catch_unwind(std::panic::AssertUnwindSafe(|| qt.quantile())).unwrap_or(f64::NAN);
+            rep.sample(json!({"stream": name, "p": p, "length": xs.len(), "final_estimate": fin}));
         }
     }
     out.flush().unwrap();
